@@ -2,7 +2,7 @@
    The wrapped environment, the graph, the user's get_* methods and the PRNG split are arbitrary (Section variables of the
    model, universally quantified here). *)
 From Coq Require Import Reals Lra List ZArith Bool.
-From Rex Require Import Ops RlKernels RlEnv RlLaws.
+From Rex Require Import Ops RlKernels RlEnv RlLaws RlVecLaws.
 Import ListNotations.
 Open Scope R_scope.
 
@@ -144,6 +144,35 @@ Theorem C19_norm_rew_wrap_step (A : Type) (O : ops A) (C IB Rng : Type) (sq : A 
   ve_step (norm_rew_wrap O sq gamma clipv e) v acts =
     (set_nrew v1 (Some {| n_mom := m; n_ret := rv |}), ob, map (nv_normalize O sq (m_mean m) (m_var m) clipv true false) r, te, tr, i).
 Proof. exact (norm_rew_wrap_step O C IB Rng sq gamma clipv e v acts s v1 ob r te tr i). Qed.
+(* over whole histories: the normaliser state after any run is the update folded over every batch the wrapped
+   environment returned ... *)
+Theorem C19_norm_obs_history (A : Type) (O : ops A) (C IB Rng : Type) (sq : A -> A) clipv (e : venv (A:=A) C IB Rng) acts v ms0 :
+  a_nobs v = Some ms0 ->
+  a_nobs (final C IB Rng (vrun_from (norm_obs_wrap O sq clipv e) v acts) v) =
+  Some (nobs_fold O ms0 (nobs_raw O C IB Rng sq clipv e v acts)).
+Proof. exact (norm_obs_history O C IB Rng sq clipv e acts v ms0). Qed.
+Theorem C19_norm_obs_reset_state (A : Type) (O : ops A) (C IB Rng : Type) (sq : A -> A) clipv (e : venv (A:=A) C IB Rng) ks :
+  a_nobs (fst (fst (ve_reset (norm_obs_wrap O sq clipv e) ks))) =
+  Some (nobs_fold O (map (fun _ => mom0 O) (columns O (snd (fst (ve_reset e ks))))) [snd (fst (ve_reset e ks))]).
+Proof. exact (norm_obs_reset_state O C IB Rng sq clipv e ks). Qed.
+Theorem C19_norm_rew_history (A : Type) (O : ops A) (C IB Rng : Type) (sq : A -> A) gamma clipv (e : venv (A:=A) C IB Rng) acts v s :
+  a_nrew v = Some s ->
+  let rvs := nrew_raw O C IB Rng sq gamma clipv e v (n_ret s) acts in
+  a_nrew (final C IB Rng (vrun_from (norm_rew_wrap O sq gamma clipv e) v acts) v) =
+  Some {| n_mom := fold_left (fun m rv => mom_batch O m rv) rvs (n_mom s); n_ret := last rvs (n_ret s) |}.
+Proof. exact (norm_rew_history O C IB Rng sq gamma clipv e acts v s). Qed.
+(* ... hence coordinate j of the observation normaliser = count, mean and variance of coordinate j of every observation
+   seen so far (reset batch included), with the prior *)
+Theorem C19_nobs_all_seen j d (batches : list (list (obs (A:=R)))) : batches <> [] ->
+  (forall ob, In ob batches -> ob <> [] /\ obs_dim ob = obs_dim (hd [] batches)) -> (j < obs_dim (hd [] batches))%nat ->
+  let ms := nobs_fold Rops (map (fun _ => mom0 Rops) (columns Rops (hd [] batches))) batches in
+  let all := concat (map (column Rops j) batches) in let n := / 10000 + len all in
+  m_count (nth j ms d) = n /\ m_mean (nth j ms d) = rsum all / n /\
+  m_var (nth j ms d) = (/ 10000 + sumsq all) / n - m_mean (nth j ms d) * m_mean (nth j ms d).
+Proof. exact (nobs_all_seen j d batches). Qed.
+Print Assumptions C19_norm_obs_history.
+Print Assumptions C19_nobs_all_seen.
+
 Theorem C19_ret_update_done gamma rv r te tr : te || tr = true -> ret_update Rops gamma rv r te tr = r.
 Proof. exact (ret_update_done gamma rv r te tr). Qed.
 Theorem C19_ret_horner gamma rs rv : fold_left (fun v r => ret_update Rops gamma v r false false) rs rv = horner gamma rv rs.
